@@ -5,6 +5,11 @@ use gv::rng::Rng;
 
 pub const PRE: &str = "let string = import! std.string\nlet { ref } = import! std.reference\nlet { lazy } = import! std.lazy\nlet io = import! std.io.prim\n";
 
+/// how the reference of a `parent_cell` shape is made (on the parent thread)
+pub fn parent_cell_program(r: &mut Rng) -> String {
+    format!("{}ref {}", PRE, ints(r))
+}
+
 #[derive(Clone, Debug)]
 pub struct Shape {
     pub family: &'static str,
@@ -18,6 +23,11 @@ pub struct Shape {
     /// cells reached twice lose their sharing when copied (known finding)
     pub shared_cell: bool,
     pub string_array: bool,
+    /// Gluon expression over `x` (the value) that denotes one reference cell inside it, and the
+    /// path of edge indices to that cell's object (aliasing oracle of c13)
+    pub cell0: Option<(&'static str, Vec<usize>)>,
+    /// the cell is built in the PARENT of the source thread and `expr` is a function of it
+    pub parent_cell: bool,
 }
 
 fn ints(r: &mut Rng) -> String {
@@ -37,6 +47,9 @@ pub const FAMILIES: &[&str] = &[
     "ints", "rstr", "rec", "shared", "boxed-array", "nested-array", "string-array", "closure", "partial-app",
     "mutual-closures", "variant", "cyclic", "ref-cell", "shared-ref-cell", "lazy-cell", "byte-float-arrays",
     "literal-string", "deep-list",
+    // arrays with the userdata element representation (value.rs:1711 `deep_clone_userdata`)
+    "ref-array", "ref-array-shared", "lazy-array", "lazy-array-forced", "ref-array-nested", "rec-of-ref-array",
+    "closure-of-ref-array", "parent-cell-array",
 ];
 
 pub fn shape_of(family: &'static str, r: &mut Rng) -> Shape {
@@ -48,6 +61,8 @@ pub fn shape_of(family: &'static str, r: &mut Rng) -> Shape {
         kinds: vec![],
         shared_cell: false,
         string_array: false,
+        cell0: None,
+        parent_cell: false,
     };
     s.expr = match family {
         "ints" => ints(r),
@@ -55,7 +70,82 @@ pub fn shape_of(family: &'static str, r: &mut Rng) -> Shape {
         "rec" => rec2(r),
         "shared" => format!("let x = {} in {{ l = x, r = x, n = {}, d = {{ x }} }}", rec2(r), r.range(0, 50)),
         "boxed-array" => format!("[{}, {}, {}]", rec2(r), rec2(r), rec2(r)),
-        "nested-array" => format!("[{}, {}]", ints(r), ints(r)),
+        "nested-array" => {
+            s.kinds.push((vec![], 'a'));
+            format!("[{}, {}]", ints(r), ints(r))
+        }
+        "ref-array" => {
+            s.io = true;
+            s.kinds.push((vec![], 'U'));
+            s.kinds.push((vec![0], 'c'));
+            s.kinds.push((vec![1], 'c'));
+            s.cell0 = Some(("array.index x 0", vec![0]));
+            format!("io.flat_map (\\a -> io.flat_map (\\b -> io.wrap [a, b]) (ref {})) (ref {})", ints(r), ints(r))
+        }
+        "ref-array-shared" => {
+            s.io = true;
+            s.shared_cell = true;
+            s.kinds.push((vec![], 'U'));
+            s.kinds.push((vec![0], 'c'));
+            s.cell0 = Some(("array.index x 0", vec![0]));
+            format!("io.flat_map (\\a -> io.wrap [a, a]) (ref {})", ints(r))
+        }
+        "lazy-array" => {
+            s.has_closure = true;
+            s.kinds.push((vec![], 'U'));
+            s.kinds.push((vec![0], 'c'));
+            s.kinds.push((vec![1], 'c'));
+            s.kinds.push((vec![0, 0, 0], 'f'));
+            s.kinds.push((vec![1, 0, 0], 'f'));
+            format!("let v = {} in [lazy (\\u -> v), lazy (\\u -> {})]", ints(r), ints(r))
+        }
+        "lazy-array-forced" => {
+            s.has_closure = true;
+            s.kinds.push((vec![], 'U'));
+            s.kinds.push((vec![0], 'c'));
+            s.kinds.push((vec![1], 'c'));
+            s.kinds.push((vec![1, 0, 0], 'f'));
+            format!("let {{ force }} = import! std.lazy\nlet l = lazy (\\u -> {})\nlet w = force l\n[l, lazy (\\u -> w)]", ints(r))
+        }
+        "ref-array-nested" => {
+            s.io = true;
+            s.shared_cell = true;
+            s.kinds.push((vec![], 'a'));
+            s.kinds.push((vec![0], 'U'));
+            s.kinds.push((vec![1], 'U'));
+            s.kinds.push((vec![0, 0], 'c'));
+            s.kinds.push((vec![0, 1], 'c'));
+            s.cell0 = Some(("array.index (array.index x 0) 0", vec![0, 0]));
+            format!("io.flat_map (\\a -> io.flat_map (\\b -> io.wrap [[a, b], [a]]) (ref {})) (ref {})", ints(r), ints(r))
+        }
+        "rec-of-ref-array" => {
+            s.io = true;
+            s.shared_cell = true;
+            s.kinds.push((vec![0], 'U'));
+            s.kinds.push((vec![1], 'U'));
+            s.kinds.push((vec![0, 0], 'c'));
+            s.kinds.push((vec![0, 1], 'c'));
+            s.cell0 = Some(("array.index x.xs 0", vec![0, 0]));
+            format!("io.flat_map (\\a -> io.flat_map (\\b -> io.wrap {{ xs = [a, b], ys = [a], n = 3 }}) (ref {})) (ref {})", ints(r), ints(r))
+        }
+        "closure-of-ref-array" => {
+            s.io = true;
+            s.has_closure = true;
+            s.kinds.push((vec![0], 'f'));
+            s.kinds.push((vec![1], 'U'));
+            s.kinds.push((vec![1, 0], 'c'));
+            s.cell0 = Some(("array.index (x 0) 0", vec![1, 0]));
+            format!("io.flat_map (\\a -> io.wrap (let xs = [a] in \\u -> let z = u #Int+ 1 in xs)) (ref {})", ints(r))
+        }
+        "parent-cell-array" => {
+            // `expr` is applied to a reference that lives in the heap of the source thread's parent
+            s.parent_cell = true;
+            s.shared_cell = true;
+            s.kinds.push((vec![0], 'U'));
+            s.kinds.push((vec![0, 0], 'c'));
+            s.cell0 = Some(("array.index x.xs 0", vec![0, 0]));
+            "\\r -> { xs = [r], direct = r }".to_string()
+        }
         "string-array" => {
             s.string_array = true;
             s.kinds.push((vec![], 's'));
